@@ -24,19 +24,49 @@ impl crate::fold::Fold<TextRange> for RandomLocator<'_> {
     }
 }
 
+/// Locations of the ranges the parts of one (possibly implicitly concatenated) f-string
+/// carry. A part has either the range of the whole joined string or the range of the string
+/// token it comes from; tokens are visited in source order, so remembering the whole string
+/// and the most recent token is enough.
+struct JoinedStrLocations {
+    whole: (TextRange, SourceRange),
+    token: Option<(TextRange, SourceRange)>,
+}
+
+impl JoinedStrLocations {
+    fn locate(&mut self, locator: &mut LinearLocator<'_>, range: TextRange) -> SourceRange {
+        if range == self.whole.0 {
+            return self.whole.1;
+        }
+        match self.token {
+            Some((token, location)) if token == range => location,
+            _ => {
+                // A token seen for the first time starts at or after the cursor: look ahead
+                // without moving it, the expressions inside the token are located afterwards.
+                let start = locator.locate_only(range.start());
+                let end = locator.locate_only(range.end());
+                let location = SourceRange::new(start, end);
+                self.token = Some((range, location));
+                location
+            }
+        }
+    }
+}
+
 fn linear_locate_expr_joined_str(
     locator: &mut LinearLocator<'_>,
     node: crate::ExprJoinedStr<TextRange>,
-    location: SourceRange,
+    locations: &mut JoinedStrLocations,
 ) -> Result<crate::ExprJoinedStr<SourceRange>, Infallible> {
-    let crate::ExprJoinedStr { range: _, values } = node;
+    let crate::ExprJoinedStr { range, values } = node;
+    let location = locations.locate(locator, range);
 
     let mut located_values = Vec::with_capacity(values.len());
     for value in values.into_iter() {
         let located = match value {
             crate::Expr::Constant(constant) => {
                 let node = crate::ExprConstant {
-                    range: location,
+                    range: locations.locate(locator, constant.range),
                     value: constant.value,
                     kind: constant.kind,
                 };
@@ -44,7 +74,7 @@ fn linear_locate_expr_joined_str(
             }
             crate::Expr::FormattedValue(formatted) => {
                 let node = crate::ExprFormattedValue {
-                    range: location,
+                    range: locations.locate(locator, formatted.range),
                     value: locator.fold(formatted.value)?,
                     conversion: formatted.conversion,
                     format_spec: formatted
@@ -52,7 +82,7 @@ fn linear_locate_expr_joined_str(
                         .map(|spec| match *spec {
                             crate::Expr::JoinedStr(joined_str) => {
                                 let node =
-                                    linear_locate_expr_joined_str(locator, joined_str, location)?;
+                                    linear_locate_expr_joined_str(locator, joined_str, locations)?;
                                 Ok(crate::Expr::JoinedStr(node))
                             }
                             expr => locator.fold(expr),
@@ -249,8 +279,11 @@ impl crate::fold::Fold<TextRange> for LinearLocator<'_> {
     ) -> Result<crate::ExprJoinedStr<Self::TargetU>, Self::Error> {
         let start = self.locate(node.range.start());
         let end = self.locate_only(node.range.end());
-        let location = SourceRange::new(start, end);
-        linear_locate_expr_joined_str(self, node, location)
+        let mut locations = JoinedStrLocations {
+            whole: (node.range, SourceRange::new(start, end)),
+            token: None,
+        };
+        linear_locate_expr_joined_str(self, node, &mut locations)
     }
 
     fn fold_expr_call(
